@@ -12,6 +12,8 @@ def run(ctx):
                 "face-wise Robin / periodic (either or both flags, non-radial axes), random term lists (kinds, order, sign, scaling); the residual of the "
                 "MODEL system is evaluated inside Coq at the real solver's answer; non-trivial = some axis N>=2; impl_probe: the property's observables on the real code")
     ctx.prove("C03")
+    from suites import symsuite
+    run_suites(ctx, ["symbolic"], runner=symsuite.run_suite, relevant=symsuite.relevant_for(['bcM', 'bcR', 'ghosts']))
     run_suites(ctx, ["bc_ghost", "bc_rows"], runner=bcsuite.run_suite)
     run_suites(ctx, ["solve", "explicit"], runner=solvesuite.run_suite)
     try:
